@@ -64,6 +64,10 @@ func parseAndValidateUserID(id string, allowHistoricalIDs bool) (*UserID, error)
 		return nil, fmt.Errorf("domain is invalid")
 	}
 
+	if len(localpart) < 1 {
+		return nil, fmt.Errorf("local part is empty")
+	}
+
 	if allowHistoricalIDs {
 		// NOTE: Allowed historical userIDs:
 		// https://spec.matrix.org/v1.4/appendices/#historical-user-ids
